@@ -89,8 +89,8 @@ prop(
 
 prop(
     "C12",
-    rules=["C12-R1", "C12-R2", "C12-R3", "C12-R4", "X-WMW", "X-EXT@ctor", "X-EXT@grower", "C12-R5"],
-    mir_rules=[S.rule_creator, S.rule_remover, S2.rule_push_guards, S2.rule_grower, S2.rule_populate, S2.rule_ctor, S2.rule_accessors, S2.rule_who_may, E.rule_layout],
+    rules=["C12-R1", "C12-R2", "C12-R3", "C12-R4", "X-WMW", "X-EXT@ctor", "X-EXT@grower", "C12-R5", ],
+    mir_rules=[S.rule_creator, S.rule_remover, S2.rule_push_guards, S2.rule_grower, S2.rule_populate, S2.rule_ctor, S2.rule_accessors, S2.rule_who_may, E.rule_layout, SP.rule_delegations],
     floors={"C12-R1": lambda c: 4 * n_storages(c), "C12-R4": lambda c: 4 * n_storages(c), "C12-R2": lambda c: 18 * n_storages(c), "C12-R3": lambda c: 4 * n_storages(c), "X-WMW": lambda c: 10 * n_storages(c)},
     explanation="Static analysis. Decides: C12-R1 len changes by exactly +1 in the creator and -1 in the remover, capacity is written by neither; X-WMW len/capacity/free_head/version are written "
     "only by the functions whose role allows it and only through &mut self; C12-R2 push grows iff len>=capacity and panics iff grow()==false, push_within_capacity returns Err(argument) iff len>=capacity and never grows, "
@@ -144,8 +144,8 @@ prop(
 
 prop(
     "C13",
-    rules=["C13-R1", "C13-R2", "C13-R3", "X-EXT@cloner"],
-    mir_rules=[S2.rule_cloner, S.rule_extent],
+    rules=["C13-R1", "C13-R2", "C13-R3", "X-EXT@cloner", "C13-R4"],
+    mir_rules=[S2.rule_cloner, S.rule_extent, SP.rule_delegations],
     floors={"C13-R1": lambda c: 4 * n_storages(c), "C13-R2": lambda c: 4 * n_storages(c), "C13-R3": lambda c: 4 * n_storages(c)},
     explanation="Static analysis. Decides: C13-R1 the clone's len/version/capacity/free_head (and pending event logs) have the source's values as origin; C13-R2 all capacity slots and the live prefix of every dense array are cloned element-wise at equal index "
     "into the array that becomes the same field; C13-R3 every array is a fresh allocation of self.capacity, no pointer of the source flows into the result, DataPtr is neither Copy nor Clone, the source is not written.",
@@ -154,8 +154,8 @@ prop(
 
 prop(
     "C17",
-    rules=["C17-R1", "C17-R2", "C17-R4", "C17-R3"],
-    mir_rules=[S.rule_creator, S.rule_remover, S2.rule_who_may, SP.rule_funnel],
+    rules=["C17-R1", "C17-R2", "C17-R4", "C17-R3", "C17-R5"],
+    mir_rules=[S.rule_creator, S.rule_remover, S2.rule_who_may, SP.rule_funnel, SP.rule_event_iter],
     floors={"C17-R2": lambda c: 2 * n_storages(c), "C17-R1": lambda c: 3 * n_storages(c)},
     explanation="Static analysis (events configurations; in the others the rules assert that no event code exists). Decides: C17-R1 the logs are pushed only by creator/remover and cleared only by clear_events; "
     "C17-R2 exactly one created-event per creation carrying the returned handle, exactly one destroyed-event per removal carrying entities[dense] read before the move; C17-R4 clear_events clears both logs and nothing else, accessors expose their own log.",
